@@ -578,8 +578,11 @@ func (vr *variableResolver) resolve(ctx *ExecutionContext) (*Value, error) {
 				}
 			}
 
-			// (what the result holds: a func() any may hand out a *Value as well)
+			// (what the result holds: a func() any may hand out a *Value as well). The
+			// result is a value of its own: it is not safe because the function that was
+			// called had been marked safe
 			current = reflect.ValueOf(rv.Interface())
+			isSafe = false
 			if current.IsValid() && current.Type() == typeOfValuePtr {
 				// Return the function call value (a nil *Value is a nil value)
 				retValue := current.Interface().(*Value)
